@@ -67,7 +67,9 @@ def c01_protocol(ctx):
         after = set()
         for s_ in rt.succs(bb):
             after |= rt.reachable(s_)
-        leaves = not (after & {b for b in loop if any(M.callee_str(t["f"]).endswith("Read>::read") for b2, t in rt.calls([b]))})
+        readers = {b for b in loop if any(M.callee_str(t["f"]).endswith("Read>::read") for b2, t in rt.calls([b]))}
+        # (by evaluation when the announcement and the decision to stop are separate: `let more = matches!(payload, Data(_)); .. if !more { break }`)
+        leaves = not (after & readers) or not (M.Explore(rt, start=bb).blocks & readers)
         ctx.ob("R01.8", "reader.eof-iff-read-0", bool(zero) and dominated_by_edges(rt, bb, zero) and leaves, rt.loc(bb),
                "Payload::EOF is announced exactly on the `read() == 0` edge and the helper then stops reading (a helper that treats another count as EOF "
                "drops data; one that does not stop on 0 floods the channel with empty chunks forever)")
